@@ -17,7 +17,7 @@ class Item:
 _fsm_counter = [0]
 
 
-def gen_items(rng, g_comb, g_sync, tg_comb, tg_sync, depth, hist, allow_fsm=True, n=None, in_fsm=None):
+def gen_items(rng, g_comb, g_sync, tg_comb, tg_sync, depth, hist, allow_fsm=True, n=None, in_fsm=None, tg_by_dom=None):
     """returns a list of abstract items; expressions/targets are real amaranth values.
     `in_fsm`: state names of the innermost enclosing FSM (then `m.next = …` items may be generated)"""
     items = []
@@ -40,8 +40,12 @@ def gen_items(rng, g_comb, g_sync, tg_comb, tg_sync, depth, hist, allow_fsm=True
             hist["fsm"] = hist.get("fsm", 0) + 1
             continue
         if depth <= 0 or r < 0.45:
-            dom = rng.choice(["comb", "sync"])
-            tg = tg_comb if dom == "comb" else tg_sync
+            if tg_by_dom is not None:          # several synchronous domains used by one module
+                dom = rng.choice(list(tg_by_dom))
+                tg = tg_by_dom[dom]
+            else:
+                dom = rng.choice(["comb", "sync"])
+                tg = tg_comb if dom == "comb" else tg_sync
             t = tg.target(rng.randint(0, 2))
             if t is None:
                 continue
@@ -58,8 +62,8 @@ def gen_items(rng, g_comb, g_sync, tg_comb, tg_sync, depth, hist, allow_fsm=True
                 c = g_comb.expr(rng.randint(0, 2))
                 if rng.random() < 0.15:
                     c = Const(rng.randint(0, 1), 1)           # constant conditions are kept rare but present
-                branches.append((c, gen_items(rng, g_comb, g_sync, tg_comb, tg_sync, depth - 1, hist, allow_fsm, in_fsm=in_fsm)))
-            els = gen_items(rng, g_comb, g_sync, tg_comb, tg_sync, depth - 1, hist, allow_fsm, in_fsm=in_fsm) if rng.random() < 0.5 else None
+                branches.append((c, gen_items(rng, g_comb, g_sync, tg_comb, tg_sync, depth - 1, hist, allow_fsm, in_fsm=in_fsm, tg_by_dom=tg_by_dom)))
+            els = gen_items(rng, g_comb, g_sync, tg_comb, tg_sync, depth - 1, hist, allow_fsm, in_fsm=in_fsm, tg_by_dom=tg_by_dom) if rng.random() < 0.5 else None
             items.append(("if", branches, els))
             hist[f"if{nb}{'e' if els is not None else ''}"] = hist.get(f"if{nb}{'e' if els is not None else ''}", 0) + 1
         else:
@@ -76,7 +80,7 @@ def gen_items(rng, g_comb, g_sync, tg_comb, tg_sync, depth, hist, allow_fsm=True
                     got_default = True
                 else:
                     pats = tuple(gen_expr.rand_pattern(rng, w) for _p in range(rng.randint(1, 3)))
-                cases.append((pats, gen_items(rng, g_comb, g_sync, tg_comb, tg_sync, depth - 1, hist, allow_fsm, in_fsm=in_fsm)))
+                cases.append((pats, gen_items(rng, g_comb, g_sync, tg_comb, tg_sync, depth - 1, hist, allow_fsm, in_fsm=in_fsm, tg_by_dom=tg_by_dom)))
             items.append(("switch", test, cases))
             hist["switch"] = hist.get("switch", 0) + 1
     return items
